@@ -234,3 +234,4 @@ P.unit(JM, name="jobmap[vectorized jobs]")(unit(True))
 # reuse of cached outputs relies on what run_local records (exit code, input hash): C17's run_local contract is part of this claim
 from contracts import C17_jobs as C17
 P.include(C17.P, ["run_local: files, command loop"], why="the recorded exit code / input hash decide reuse")
+P.include(C17.P, ["JobInput: the hash covers every field"], why="cache reuse compares input hashes")
